@@ -124,6 +124,9 @@ pub mod thread {
         });
         if !handled {
             std::thread::sleep(d);
+        } else {
+            // a simulated sleep is a scheduling point (outside the environment slot's borrow)
+            super::sched_point("thread.sleep");
         }
     }
 }
